@@ -64,6 +64,11 @@ def replay_pattern_function(obligation: str = "", model: Optional[Dict[str, str]
 # bounded stand-in for the front end as a whole: token- and line-level mutants of valid meta-models never make
 # run.load_model raise (they may be accepted or rejected)
 
+STRING_ALTERNATIVES = ['""', '"^$"', '"*"', "1", 'f"{x}"', '"\\u00b2"', "None",
+                       # rejected patterns with literal line breaks (the error has to be rendered), a trailing '|'
+                       '"^\\n\\\\d$"', '"[\\r"', '"^a$|"']
+
+
 def _mutants(text: str) -> Any:
     import io
     import tokenize
@@ -81,6 +86,22 @@ def _mutants(text: str) -> Any:
     offsets = [0]
     for ln in lines:
         offsets.append(offsets[-1] + len(ln))
+    # f-strings (the usual form of a pattern) are several tokens since Python 3.12: replace them as a whole
+    fstart = getattr(tokenize, "FSTRING_START", None)
+    fend = getattr(tokenize, "FSTRING_END", None)
+    depth, start_tok = 0, None
+    for t in toks:
+        if fstart is not None and t.type == fstart:
+            if depth == 0:
+                start_tok = t
+            depth += 1
+        elif fend is not None and t.type == fend:
+            depth -= 1
+            if depth == 0 and start_tok is not None:
+                a = offsets[start_tok.start[0] - 1] + start_tok.start[1]
+                b = offsets[t.end[0] - 1] + t.end[1]
+                for alt in STRING_ALTERNATIVES:
+                    yield (f"f-string {text[a:b][:20]!r} -> {alt!r}", start_tok.start[0], text[:a] + alt + text[b:])
     for k, t in enumerate(toks):
         if t.type not in (tokenize.NAME, tokenize.STRING, tokenize.NUMBER, tokenize.OP):
             continue
@@ -90,7 +111,7 @@ def _mutants(text: str) -> Any:
             alts = ["None", "self", "str", "Optional", "List", "x_1", names[(names.index(t.string) + 1) % len(names)],
                     names[(names.index(t.string) + 7) % len(names)]]
         elif t.type == tokenize.STRING:
-            alts = ['""', '"^$"', '"*"', "1", 'f"{x}"', '"\\u00b2"', "None"]
+            alts = STRING_ALTERNATIVES
         elif t.type == tokenize.NUMBER:
             alts = ["0", "-1", '"1"', "1.5", "None"]
         else:
